@@ -1170,3 +1170,28 @@ def find_workflow_witness(ctx):
         if got != want:
             diffs.append(f"find_workflow({spec!r}) invoked in {cwd} with files {sorted(existing)} [{label}] gives {got}, expected {want}")
     return n, diffs, None
+
+
+def eval_store_load(ctx, ckey, attr, disk):
+    """Run the store's initialiser (attrs default method or __attrs_post_init__/__init__) with the given file content (None = no file);
+    returns the table the instance starts with, or an error string."""
+    ci, obj = store_object(ctx, ckey, attr, {})
+    events = []
+    hooks = file_hooks(events, disk if disk is not None else {})
+    if disk is None:
+        def h_open(path, mode="r", *a, **k):
+            raise Raised("FileNotFoundError", str(path))
+        hooks["builtins.open"] = h_open
+    interp = PureInterp(ctx, hooks=hooks)
+    interp.events = events
+    try:
+        for m in ci.methods.values():
+            decos = [d or "" for d in m.decorator_names()]
+            if any(d.endswith(f"{attr}.default") for d in decos):
+                setattr(obj, attr, interp.call(m, (), {}, self_obj=obj))
+            elif m.name in ("__attrs_post_init__",):
+                interp.call(m, (), {}, self_obj=obj)
+    except (Raised, Unsupported) as exc:
+        return f"<{type(exc).__name__}: {exc}>"
+    v = getattr(obj, attr)
+    return dict(v) if isinstance(v, dict) else v
